@@ -574,9 +574,7 @@ func genC13(c *Ctx) {
 					expect = "ERR"
 				case p[0] == cp && cp != "input":
 					expect = "REJ"
-					if selfReach {
-						unspec = true
-					}
+					_ = selfReach
 				case !allowed[p[0]]:
 					expect = "REJ"
 				}
@@ -631,7 +629,9 @@ func c15Queries(target string) [][2]string {
 func (c *Ctx) c15Check(root *CTy, txt string, all []string, cp, target, cls string, positions bool) {
 	allowed, selfReach, errored := specAllowed(root, cp)
 	expectOK := allowed[target] && !(target == cp && cp != "input")
-	unspec := target == cp && cp != "input" && selfReach
+	// the current step itself is rejected (unless it is input) even when it can reach itself through a cycle
+	unspec := false
+	_ = selfReach
 	qs := c15Queries(target)
 	if !positions {
 		qs = qs[:1]
@@ -665,9 +665,6 @@ func (c *Ctx) c15Check(root *CTy, txt string, all []string, cp, target, cls stri
 			}
 			for _, f := range all {
 				blocked := !allowed[f] || (f == cp && cp != "input")
-				if f == cp && selfReach {
-					continue
-				}
 				if blocked && offered[f] {
 					c.addViolation(Violation{Kind: "oracle", Query: q, QueryHex: hx(q), Expected: "root fields offered without " + f, Got: strings.Join(o.Fields, ","),
 						Why: "a blocked root field is offered at the root", Cls: cls, Key: "oracle:offered-blocked", Extra: map[string]any{"schema": txt, "current_step": cp}})
